@@ -859,11 +859,13 @@ def sk_nontrivial(D, cols):
     return False
 
 
-def sk_program(D, pattern, cols, patterns_per_level=None, qq_levels=(), kstyle="param"):
+def sk_program(D, pattern, cols, patterns_per_level=None, qq_levels=(), kstyle="param", pure_set=False):
     """the probe program of a skeleton: every read is logged with display; at the levels in
     qq_levels the read goes through a quasiquote template, (display `(,x)).  kstyle: the
     location holding the next-level closure is a parameter of its creator ("param", passed
-    #f) or an internal definition ("idef": procedures without bound names are thunks)"""
+    #f) or an internal definition ("idef": procedures without bound names are thunks).
+    pure_set: a set! action is a bare assignment (set! x 'wL) with no read in the same
+    procedure (the variable is then mentioned by that procedure only as an assignment target)"""
     pats = patterns_per_level or [pattern] * D
 
     def args_for(l):
@@ -881,7 +883,11 @@ def sk_program(D, pattern, cols, patterns_per_level=None, qq_levels=(), kstyle="
     def act_code(n, l, what):
         nm = NAMES3[n]
         if what == "set":
+            if pure_set:
+                return "(set! %s 'w%d)" % (nm, l + 1)
             return "(set! %s (cons 's%d %s))" % (nm, l + 1, nm)
+        if pure_set and cols[n][l][1][0] == "s":
+            return "'skip"
         if l in qq_levels:
             return "(display `(,%s))" % nm
         return "(display %s)" % nm
@@ -1093,7 +1099,7 @@ class G05(object):
         depth = self.rng.randint(0, 3) if depth is None else depth
         e = hole
         for _ in range(depth):
-            k = self.rng.randrange(12)
+            k = self.rng.randrange(14)
             self.dist.hit("ctx:%d" % k)
             if k == 0:
                 e = "(+ %s %s)" % (self.ival(), e)                     # last operand
@@ -1117,17 +1123,23 @@ class G05(object):
                 e = "(call/cc (lambda (outer) (+ 1 %s)))" % e             # nested inside another call/cc
             elif k == 10:
                 e = "(cond ((< %s 0) 'neg) (else (* 2 %s)))" % (self.ival(), e)
+            elif k == 12:
+                # the resumed frame reads a variable that lives in its lexical environment (captured by a closure)
+                e = "(let ((loc %s)) (let ((cl (lambda () loc))) (+ (cl) %s loc)))" % (self.ival(), e)
+            elif k == 13:
+                # ... and assigns it after resuming; an internal definition shares the frame
+                e = "((lambda (loc) (define (bump) (set! loc (+ loc 1)) loc) (bump) (+ %s (bump) loc)) %s)" % (e, self.ival())
             else:
                 e = "((lambda args (apply + args)) 1 %s 2)" % e            # variadic frame
         return e
 
     def fragment(self, tag):
         """one scenario: a list of form texts using globals suffixed by tag"""
-        r = self.rng.randrange(16)
+        r = self.rng.randrange(18)
         k, n, acc = "k" + tag, "n" + tag, "r" + tag
         times = self.rng.randint(0, 3)
         self.dist.hit("scenario:%d" % r)
-        self.dist.hit("reentries_%d" % times if r in (2, 3, 4, 5, 8, 9, 11) else "reentries_na")
+        self.dist.hit("reentries_%d" % times if r in (2, 3, 4, 5, 8, 9, 11, 16, 17) else "reentries_na")
         if r == 0:   # pure escape from nested contexts
             return [self.context("(call/cc (lambda (k) %s))" % self.context("(k %s)" % self.ival()))]
         if r == 1:   # receiver returns normally == ordinary call
@@ -1202,6 +1214,19 @@ class G05(object):
                     "(if %s (%s 1) 'never-captured)" % (k, k),
                     "(call/cc (lambda (c) (set! %s c) (error \"in-receiver\" 1)))" % k,
                     "(%s 5)" % k]
+        if r == 16:  # captured inside a procedure whose locals live in a closure environment; re-entered from the top level
+            return ["(define %s #f) (define %s 0)" % (k, n),
+                    "(define (proc%s x) (let ((y (* x 2))) (define (getter) (list x y)) (set! y (+ y (call/cc (lambda (c) (set! %s c) 1)))) "
+                    "(display (getter)) (set! x (+ x 1)) (list x y %s)))" % (tag, k, n),
+                    self.context("(car (proc%s %s))" % (tag, self.ival())),
+                    "(if (< %s %d) (begin (set! %s (+ %s 1)) (%s (* 10 %s))) 'done)" % (n, times, n, n, k, n)]
+        if r == 17:  # re-entered from inside another procedure's activation (a different environment is current)
+            return ["(define %s #f) (define %s 0)" % (k, n),
+                    "(define (host%s a) (let ((b (+ a 1))) (let ((show (lambda () (list a b)))) "
+                    "(list (show) (call/cc (lambda (c) (set! %s c) 0)) (begin (set! b (+ b 1)) (show))))))" % (tag, k),
+                    "(host%s %s)" % (tag, self.ival()),
+                    "(define (other%s z) (let ((w (* z 2))) (let ((peek (lambda () w))) (if (< %s %d) (begin (set! %s (+ %s 1)) (%s (peek))) (peek)))))" % (tag, n, times, n, n, k),
+                    "(other%s %s)" % (tag, self.ival()), "(other%s 7)" % tag]
         if r == 14 and self.wide:   # stored in a vector (vocabulary outside the model)
             self.dist.hit("wide-builtin")
             return ["(define vec%s (make-vector 2 #f)) (define %s 0)" % (tag, n),
